@@ -3,6 +3,7 @@
 // STUBS: see its_common.rs (TokenSpec, GasServiceSpec.pay_gas, GatewaySpec.call_contract); HubMessage::abi_encode -> injective recorder (bytes are C10's business)
 // C05 outbound half, C18, C06 (trusted-chain administration), C07 (caller/payer authorisation).
 use super::__verif_its_common::*;
+use super::__verif_its_seed::*;
 use super::*;
 use soroban_sdk::crypto::ideal_hash;
 use soroban_sdk::model::{self, any};
@@ -46,22 +47,6 @@ fn c06_trusted_chain_admin() {
     kani::assert(q == is_trusted(&wchain), "VERIF:C06:is_trusted_chain agrees with the trust set");
 }
 
-fn announced(env: &Env, hub: &String) -> Option<(String, Message)> {
-    // both the gas payment and the gateway call must carry the single encoded payload
-    unsafe {
-        if ENC_CALLS != 1 || PG_CALLS != 1 || CC_CALLS != 1 || !PG_OK || !CC_OK {
-            return None;
-        }
-        let tok = Bytes::from_array(env, &[0xAB, 1]);
-        if PG_PAYLOAD != Some(tok.clone()) || CC_PAYLOAD != Some(tok) {
-            return None;
-        }
-        match &ENC_MSG {
-            Some(HubMessage::SendToHub { destination_chain, message }) => Some((destination_chain.clone(), message.clone())),
-            _ => None,
-        }
-    }
-}
 
 // HARNESS props=C05,C07 tier=quick profile=its shape="outbound transfer: amount full i128, data absent or present (<=6 bytes), token registered or not (either manager type), destination trusted or not, gas token arbitrary"
 #[kani::proof]
@@ -219,7 +204,7 @@ fn c18_deploy_remote_canonical_token() {
     kani::cover!(o == 0, "VERIF:reach:remote deployment refused");
 }
 
-// HARNESS props=C11,C06 tier=quick profile=its shape="configuration and registry queries on an arbitrary state"
+// HARNESS props=C11,C06 tier=quick profile=its mode=strict shape="configuration and registry queries on an arbitrary state; no query may trap"
 #[kani::proof]
 fn c11_queries() {
     let c = setup();
